@@ -46,10 +46,10 @@ pub fn gen(tier: &str, r: &mut Rng) -> Vec<String> {
         }
     }
     // (b) opening by path
-    for _ in 0..budget(tier, 150, 3_000) {
+    for _ in 0..budget(tier, 300, 6_000) {
         let name = names(r);
         let content = *r.pick(&["pdb", "mmcif"]);
-        let text = if content == "pdb" { let mut d = pdbtext::gen_doc(r, false); d.master = false; pdbtext::render(&d, r, false).join("\n") + "\n" } else { let d = cifdoc::gen_doc(r, false, false); cifdoc::render(&d, r, true) };
+        let text = if content == "pdb" { let mut d = pdbtext::gen_doc(r, false); d.master = false; let mut l = pdbtext::render(&d, r, false); if r.chance(1, 2) { pdbtext::mutate_for_diag(&mut l, r); } l.join("\n") + "\n" } else { let d = cifdoc::gen_doc(r, false, false); cifdoc::render(&d, r, true) };
         out.push(format!("c15 open {} {} {} {}", enc_str(&name), content, b(r.chance(1, 2)), enc_bytes(text.as_bytes())));
     }
     for n in ["does-not-exist.pdb", "does-not-exist.cif", "does-not-exist.pdb.gz", "no-such-dir/x.cif.gz", "does-not-exist", "does-not-exist.xyz"] { out.push(format!("c15 missing {}", enc_str(n))); }
@@ -180,12 +180,14 @@ pub fn exec(case: &str) -> Exec {
             let fl = bytes.len() % 8;
             let (dh, fm, ac) = (fl & 1 != 0, fl & 2 != 0, fl & 4 != 0);
             ex.tags.push(format!("open-flags:{}{}{}", b(dh), b(fm), b(ac)));
-            let by_path = guarded(|| { let mut o = ReadOptions::default(); o.set_level(StrictnessLevel::Loose).set_discard_hydrogens(dh).set_only_first_model(fm).set_only_atomic_coords(ac); if decompress_flag { o.set_decompress(true); } o.read(&path) });
+            let lvl = [StrictnessLevel::Loose, StrictnessLevel::Medium, StrictnessLevel::Strict][(bytes.len() / 8) % 3];
+            ex.tags.push(format!("open-level:{}", crate::c07::level_name(lvl)));
+            let by_path = guarded(|| { let mut o = ReadOptions::default(); o.set_level(lvl).set_discard_hydrogens(dh).set_only_first_model(fm).set_only_atomic_coords(ac); if decompress_flag { o.set_decompress(true); } o.read(&path) });
             let _ = std::fs::remove_file(&path);
             if let Some(c) = &cwd { let _ = std::env::set_current_dir(c); }
             let _ = std::fs::remove_dir(&dir);
             let feats = |f: Failure| f.feat("name", &name).feat("content", &content).feat("relative", relative);
-            let o = Opts { level: StrictnessLevel::Loose, discard_h: dh, first_only: fm, atomic_only: ac };
+            let o = Opts { level: lvl, discard_h: dh, first_only: fm, atomic_only: ac };
             ex.req = format!("c15 guess {}", enc_str(&name));
             match by_path {
                 Err(m) => { ex.resp = "PANIC".into(); ex.failures.push(feats(Failure::new("open-by-path-panicked", m))); }
